@@ -133,7 +133,11 @@ Proof.
     { destruct o; simpl in *; auto.
       - split. repeat (apply andb_true_iff in Hshape; destruct Hshape as (Hshape & ?)); auto.
         destruct (slot_get k (l_slots (th_loc th))); auto; discriminate.
-      - apply andb_true_iff in Hshape; tauto. }
+      - apply andb_true_iff in Hshape; tauto.
+      - destruct (slot_get k (l_slots (th_loc th))) as [si|]; auto.
+        apply andb_true_iff in Hfresh. destruct Hfresh as (F1 & F2). split.
+        + apply fam_eqb_eq; auto.
+        + destruct (s_bad si); auto; discriminate. }
     assert (Hlt : t < length (st_threads st)) by (apply nth_error_Some; congruence).
     destruct (detector_ok c Hw _ _ _ _ _ _ _ _ He Hopok Hlt (di_tbl _ _ D) (di_agree _ _ D _ _ H0) H3) as (Hf & Hself & Hoth & Htbl & Hcnt).
     eapply datainv_update with (th := th); eauto.
